@@ -101,7 +101,12 @@ def k_layout(params):
     import numba
     pb = _L["pb"]
     dlo, dhi = params["dlo"], params["dhi"]
-    psi, clmo, enc = pb._PSI_GLOBAL, pb._CLMO_GLOBAL, pb._ENCODE_DICT_GLOBAL
+    if params.get("table") == "created":
+        # the tables every pipeline builds for itself: _init_index_tables + _create_encode_dict_from_clmo
+        psi, clmo = pb._init_index_tables(30)
+        enc = pb._create_encode_dict_from_clmo(clmo)
+    else:
+        psi, clmo, enc = pb._PSI_GLOBAL, pb._CLMO_GLOBAL, pb._ENCODE_DICT_GLOBAL
     dec, encf = pb._decode_multiindex, pb._encode_multiindex
 
     @numba.njit
@@ -287,6 +292,14 @@ def k_list_ops(params):
         for k in range(0, 5):
             n += 1
             chk(list_to_dict(ops._polynomial_power(la, k, max_deg, psi, clmo, enc)), R.power(pa, k, max_deg), "list/power", "_polynomial_power(%s,%d,max_deg=%d)" % (a, k, max_deg))
+        if max_deg == 4:
+            # truncation degree below the exponent (terms of a base with a constant part survive the truncation)
+            for md in (1, 2):
+                pl = {k_: v for k_, v in pa.items() if sum(k_) <= md}
+                ll = to_list(pl, md)
+                for k in range(0, 5):
+                    n += 1
+                    chk(list_to_dict(ops._polynomial_power(ll, k, md, psi, clmo, enc)), R.power(pl, k, md), "list/power_truncated", "_polynomial_power(%s truncated at degree %d, k=%d, max_deg=%d)" % (a, md, k, md))
         jac = ops._polynomial_jacobian(la, max_deg, psi, clmo, enc)
         for var in range(6):
             n += 3
@@ -513,6 +526,7 @@ def cases(tier, seed):
     out = []
     for lo, hi in ((0, 20), (21, 25), (26, 28), (29, 30)):
         out.append(("layout", {"dlo": lo, "dhi": hi}))
+        out.append(("layout", {"dlo": lo, "dhi": hi, "table": "created"}))
     for d1 in range(0, 4):
         out.append(("mul_pairs", {"d1": d1}))
     for d in range(0, 6 if tier == "quick" else 7):
